@@ -105,7 +105,7 @@ def run(tier, seed_):
     jobs = common.NCPU
     recs = []
     with ProcessPoolExecutor(max_workers=jobs) as ex:
-        for part in ex.map(_worker, [(shapes[i::jobs], i * 100000, seed_, b["orient"]) for i in range(jobs) if shapes[i::jobs]]):
+        for part in ex.map(_worker, [(shapes[i::jobs], i * 100003, seed_, b["orient"]) for i in range(jobs) if shapes[i::jobs]]):
             recs += part
     # one high-degree complex: a hub joined to 130 others (entries of B^T B beyond one byte)
     hub = {"nodes": list(range(131)), "edges": list(range(130)), "e2n": [[0, k] for k in range(1, 131)],
